@@ -97,6 +97,17 @@ CHECKS = {
              "caller-supplied parameterizer only appended to.",
         ref="6/C02", technique="TLA+ interleaving model with measured write footprint (PT_RenderConc) + TLC trace judge of recorded renders (J_Render)",
         note=TLC_NOTE + " Thread schedules and hash seeds are sampled; the all-interleavings claim is on the model, bound to the code by the measured footprint."),
+    "C03": dict(
+        text="PT_RefSql!RefFull is the reference transcription of an abstract statement (PT_Builder state) into plain SQLite text: every operator application bracketed, "
+             "every column qualified by the alias-or-name of its source, explicit AS, LIMIT -1 for a lone offset. TLC grows programs of the relational core (12 bases: "
+             "plain / aliased / inner, left, cross, comma and self joins / subquery source / grouped / insert / upsert / update plain, FROM, JOIN / delete; clause units "
+             "with ~150 select terms covering every arithmetic parent/child/side pair, ~45 criteria, DISTINCT, ORDER BY, LIMIT/OFFSET/slice, HAVING, window functions, "
+             "INSERT rows / INSERT..SELECT / REPLACE, upsert actions, SET expressions; quick: one unit, thorough: two) and prints each with RefFull and its suspects; SELECT "
+             "programs are also nested (FROM / IN subquery, unwrapped UNION / INTERSECT / EXCEPT). The real SQLite engine prepares both texts; identical EXPLAIN "
+             "bytecode means equivalent on all data, otherwise both run on 6 (quick) / 12 (thorough) seeded databases with NULLs (rows in order when ordered, final "
+             "table contents for DML). J_C03 (TLC) checks that the executed reference is RefFull of the logged calls and turns the engine records into verdicts.",
+        ref="6/C03", technique="TLA+ reference transcription (PT_RefSql) of TLC-grown programs; SQLite engine as oracle (prepare, EXPLAIN identity, execution); TLC trace judge (J_C03)",
+        note=TLC_NOTE + " Equivalence beyond identical bytecode is tested on generated databases only; SQLite 3.40 is trusted as the meaning of SQLite-dialect SQL."),
     "C04": dict(
         text="PT_Param specifies the dialect placeholder text, the literal spans that decode to a value, and ParamEquiv as a parallel walk of the inline and the "
              "parameterised token streams (identical at every non-placeholder position; the k-th placeholder has the dialect's text and stands where the inline "
